@@ -1,31 +1,31 @@
 /-
 C11 — an unavailable pack is reported as missing, and everything else still reads.
+
+Statements over the model of `Container::new` / `get_pack` / `Container::check`
+(Model/Container.lean) and a model file system `FS` (regular files only: a directory at a location
+is the same state as no file there).  `Disturbed fs fs' c` (Lemmas/Missing.lean) says that `fs'` is
+`fs` with *any subset* of the separately located content packs made unavailable — removed, turned
+into a directory, or replaced by a different valid pack — and nothing else is assumed about `fs'`.
+Proofs are in Lemmas/Missing.lean (`missing_*`); the statements are repeated here in full.
 -/
 import JubakoModel.Model.Container
+import JubakoModel.Lemmas.Missing
 
 namespace Jubako
 
 /-- a pack whose file is absent (or is a directory: not a regular file of the model's file system)
     is not located … -/
 theorem c11_absent_file (fs : FS) (u : Bytes) (loc : String) (h : fs.get loc = none) :
-    fsLocate fs u loc = .ok none := by
-  unfold fsLocate
-  split
-  · rfl
-  · simp [h]
+    fsLocate fs u loc = .ok none :=
+  missing_absent_file fs u loc h
 
 /-- … and neither is a *different valid pack* sitting at the recorded location: identity is the
     uuid, not the location -/
 theorem c11_other_pack (fs : FS) (u : Bytes) (loc : String) (f : Bytes) (packs : List PackAt)
     (hf : fs.get loc = some f) (hne : loc ≠ "") (hb : blindOpen f = .ok packs)
-    (hn : ∀ p ∈ packs, p.uuid ≠ u) : fsLocate fs u loc = .ok none := by
-  unfold fsLocate
-  rw [if_neg hne, hf]
-  simp only [hb, bind, Outcome.bind]
-  have : packs.find? (fun p => p.uuid == u) = none := by
-    apply List.find?_eq_none.mpr
-    intro p hp; simpa using hn p hp
-  rw [this]; rfl
+    (hn : ∀ p ∈ packs, p.uuid ≠ u) :
+    fsLocate fs u loc = .ok none :=
+  missing_other_pack fs u loc f packs hf hne hb hn
 
 /-- **Three-way result**: for a pack id listed in the manifest whose pack is neither in the entry
     file nor locatable, `get_pack` answers `missing` with that pack's description — not an error. -/
@@ -33,11 +33,135 @@ theorem c11_missing (fs : FS) (c : ContainerView) (packId : Nat) (info : PackInf
     (hinfo : (c.infos.filter (fun i => i.kind ≠ .directory)).find? (fun i => i.packId == packId) = some info)
     (hin : packId < ((c.infos.filter (fun i => i.kind ≠ .directory)).map (·.packId)).foldl max 0 + 1)
     (hloc : locate fs c.entryFile c.entryPacks info.uuid (locationString info.location) = .ok none) :
-    ∃ i, containerGetPack fs c packId = .ok (.missing i) ∧ i = info := by
-  refine ⟨info, ?_, rfl⟩
-  unfold containerGetPack
-  simp only
-  rw [if_neg (by omega), hinfo]
-  simp only [hloc, bind, Outcome.bind]
+    ∃ i, containerGetPack fs c packId = .ok (.missing i) ∧ i = info :=
+  missing_missing fs c packId info hinfo hin hloc
+
+
+/-- **C11: the container still opens (0).**  A container that opens in `fs` opens to the same view
+    in every `fs'` that keeps the entry file and the file holding the *directory* pack (the entry
+    file itself when the directory pack is enclosed) — whatever happens to the content packs. -/
+theorem c11_still_opens (fs fs' : FS) (entry : String) (c : ContainerView)
+    (hopen : containerOpen fs entry = .ok c)
+    (hentry : FS.get fs' entry = FS.get fs entry)
+    (hdir : ∀ di, (c.infos.filter (fun i => i.kind = .directory)).getLast? = some di →
+      c.Encloses di.uuid ∨
+      FS.get fs' (locationString di.location) = FS.get fs (locationString di.location)) :
+    containerOpen fs' entry = .ok c :=
+  missing_still_opens fs fs' entry c hopen hentry hdir
+
+/-- for a container whose directory pack travels in the entry file, every `Disturbed` file system
+    still opens it -/
+theorem c11_still_opens_disturbed (fs fs' : FS) (entry : String) (c : ContainerView)
+    (hopen : containerOpen fs entry = .ok c) (hd : Disturbed fs fs' c)
+    (hdir : ∀ di, (c.infos.filter (fun i => i.kind = .directory)).getLast? = some di →
+      c.Encloses di.uuid) :
+    containerOpen fs' entry = .ok c :=
+  missing_still_opens_disturbed fs fs' entry c hopen hd hdir
+
+/-- **C11 frame theorem (1).**  Whatever happens to the rest of the file system — any subset of the
+    other packs removed, turned into directories or replaced — `get_pack(packId)` answers exactly
+    as before as soon as the entry file is untouched and the pack is enclosed in the entry file or
+    its recorded location is untouched.  No assumption on what the answer was: a found pack is found
+    with the same bytes, and an error stays the same error. -/
+theorem c11_frame (fs fs' : FS) (c : ContainerView) (packId : Nat)
+    (hentry : FS.get fs' c.entryFile = FS.get fs c.entryFile)
+    (hkeep : ∀ info, c.infoOf packId = some info →
+      c.Encloses info.uuid ∨
+      FS.get fs' (locationString info.location) = FS.get fs (locationString info.location)) :
+    containerGetPack fs' c packId = containerGetPack fs c packId :=
+  missing_frame fs fs' c packId hentry hkeep
+
+/-- **C11 missing theorem (2).**  For every listed pack id whose pack is not in the entry file and
+    whose recorded location is absent (removed / a directory) or holds only packs with other uuids,
+    `get_pack` answers `missing` with exactly that pack's manifest description — whatever the state
+    of every other file. -/
+theorem c11_missing_of_unavailable (fs' : FS) (c : ContainerView) (packId : Nat) (info : PackInfo)
+    (hinfo : c.infoOf packId = some info)
+    (hne : ∀ p ∈ c.entryPacks, p.uuid ≠ info.uuid)
+    (hun : Unavailable fs' info.uuid (locationString info.location)) :
+    containerGetPack fs' c packId = .ok (.missing info) :=
+  missing_missing_of_unavailable fs' c packId info hinfo hne hun
+
+/-- … in particular never an error, a panic, a hang, a fault, `unknown` or `found` -/
+theorem c11_missing_exclusive (fs' : FS) (c : ContainerView) (packId : Nat) (info : PackInfo)
+    (hinfo : c.infoOf packId = some info)
+    (hne : ∀ p ∈ c.entryPacks, p.uuid ≠ info.uuid)
+    (hun : Unavailable fs' info.uuid (locationString info.location)) :
+    (∀ k, containerGetPack fs' c packId ≠ .err k) ∧ (∀ s, containerGetPack fs' c packId ≠ .panic s) ∧
+    containerGetPack fs' c packId ≠ .hang ∧ containerGetPack fs' c packId ≠ .fault ∧
+    (∀ b, containerGetPack fs' c packId ≠ .ok (.found b)) ∧
+    containerGetPack fs' c packId ≠ .ok .unknown :=
+  missing_missing_exclusive fs' c packId info hinfo hne hun
+
+/-- **C11 totality (3).**  If `fs'` is `fs` with any subset of the content packs made unavailable,
+    every lookup that answered in `fs` answers in `fs'`: with the same answer, or with `missing` and
+    the description of the requested pack. -/
+theorem c11_total (fs fs' : FS) (c : ContainerView) (hd : Disturbed fs fs' c) (packId : Nat)
+    (r : PackLookup) (hok : containerGetPack fs c packId = .ok r) :
+    containerGetPack fs' c packId = .ok r ∨
+    ∃ info, c.infoOf packId = some info ∧ containerGetPack fs' c packId = .ok (.missing info) :=
+  missing_total fs fs' c hd packId r hok
+
+/-- **C11 check (4a).**  If the manifest and the directory pack verify and every *present* content
+    pack verifies, the container check passes — regardless of which packs are missing. -/
+theorem c11_check_present_ok (H : Bytes → Bytes) (fs' : FS) (c : ContainerView)
+    (hm : manifestCheck H c.manifest = .ok true) (hdir : packCheck H id c.dirPack = .ok true)
+    (hpacks : ∀ info ∈ c.contentInfos,
+      locate fs' c.entryFile c.entryPacks info.uuid (locationString info.location) = .ok none ∨
+      ∃ l, locate fs' c.entryFile c.entryPacks info.uuid (locationString info.location) = .ok (some l) ∧
+        locatedCheck H fs' l = .ok true) :
+    containerCheck H fs' c = .ok true :=
+  missing_check_present_ok H fs' c hm hdir hpacks
+
+/-- **C11 check (4b).**  If some present (located) content pack does not verify, the container
+    check does not answer `true` — whatever the state of the other packs: an earlier missing pack
+    does not stop the walk before a later damaged one. -/
+theorem c11_check_damaged (H : Bytes → Bytes) (fs' : FS) (c : ContainerView) (info : PackInfo)
+    (l : Located) (hmem : info ∈ c.contentInfos)
+    (hloc : locate fs' c.entryFile c.entryPacks info.uuid (locationString info.location) = .ok (some l))
+    (hbad : locatedCheck H fs' l ≠ .ok true) :
+    containerCheck H fs' c ≠ .ok true :=
+  missing_check_damaged H fs' c info l hmem hloc hbad
+
+/-- **C11 check, exact verdict.**  When the manifest and directory checks pass and every content
+    pack is either missing or present with a verdict, the container check answers the conjunction
+    of the verdicts of the present packs: the missing ones count for nothing, the present ones all
+    count. -/
+theorem c11_check_verdict (H : Bytes → Bytes) (fs' : FS) (c : ContainerView) (v : PackInfo → Bool)
+    (hm : manifestCheck H c.manifest = .ok true) (hdir : packCheck H id c.dirPack = .ok true)
+    (hpacks : ∀ info ∈ c.contentInfos,
+      (locate fs' c.entryFile c.entryPacks info.uuid (locationString info.location) = .ok none ∧
+        v info = true) ∨
+      ∃ l, locate fs' c.entryFile c.entryPacks info.uuid (locationString info.location) = .ok (some l) ∧
+        locatedCheck H fs' l = .ok (v info)) :
+    containerCheck H fs' c = .ok (c.contentInfos.all v) :=
+  missing_check_verdict H fs' c v hm hdir hpacks
+
+/-- **C11 check under disturbance.**  A container whose check passes keeps passing when any subset
+    of its content packs is made unavailable … -/
+theorem c11_check_disturbed_ok (H : Bytes → Bytes) (fs fs' : FS) (c : ContainerView)
+    (hd : Disturbed fs fs' c) (h : containerCheck H fs c = .ok true) :
+    containerCheck H fs' c = .ok true :=
+  missing_check_disturbed_ok H fs fs' c hd h
+
+/-- … and a content pack that did not verify in `fs` and whose source file is untouched in `fs'`
+    still makes the check fail in `fs'`, whatever happened to the other packs (no relation between
+    `fs` and `fs'` is needed elsewhere). -/
+theorem c11_check_disturbed_damaged (H : Bytes → Bytes) (fs fs' : FS) (c : ContainerView)
+    (info : PackInfo) (hmem : info ∈ c.contentInfos)
+    (hsrc : (c.Encloses info.uuid ∧ FS.get fs' c.entryFile = FS.get fs c.entryFile) ∨
+         (¬ c.Encloses info.uuid ∧
+          FS.get fs' (locationString info.location) = FS.get fs (locationString info.location)))
+    (hbad : stepCheck H fs c info ≠ .ok true) :
+    containerCheck H fs' c ≠ .ok true :=
+  missing_check_disturbed_damaged H fs fs' c info hmem hsrc hbad
+
+
+/-- non-vacuity: a concrete model-level container (manifest with four pack infos, directory pack and
+    content pack 1 in the entry file, content packs 2 and 3 in their own files) opened by the model,
+    with pack 2 removed / replaced by another valid pack, and with pack 2 removed *and* the later pack
+    3 damaged: every hypothesis above is discharged there (`MissingExample`) -/
+example : Disturbed MissingExample.fs MissingExample.fsRemoved MissingExample.c := MissingExample.disturbed_removed
+example : Disturbed MissingExample.fs MissingExample.fsReplaced MissingExample.c := MissingExample.disturbed_replaced
 
 end Jubako
